@@ -40,7 +40,10 @@ func (e *EAPOL) DecodeFromBytes(data []byte, df gopacket.DecodeFeedback) error {
 // SerializeTo writes the serialized form of this layer into the
 // SerializationBuffer, implementing gopacket.SerializableLayer
 func (e *EAPOL) SerializeTo(b gopacket.SerializeBuffer, opts gopacket.SerializeOptions) error {
-	bytes, _ := b.PrependBytes(4)
+	bytes, err := b.PrependBytes(4)
+	if err != nil {
+		return err
+	}
 	bytes[0] = e.Version
 	bytes[1] = byte(e.Type)
 	binary.BigEndian.PutUint16(bytes[2:], e.Length)
